@@ -148,9 +148,11 @@ class BaseAlignmentModel(ABC):
                     f"{self._template.shape[-self._ndim :]} and mask image "
                     f"{mask.shape}."
                 )
-            if mask.dtype not in (np.float32, np.bool_):
-                mask = mask.astype(np.float32)
             self._mask = mask
+        if self._mask.dtype != np.float32:
+            # NOTE: boolean masks as well. Masks are spline-interpolated when the rotated
+            # candidates are built, which must not happen in a boolean dtype.
+            self._mask = self._mask.astype(np.float32)
 
         self._template_mask_cache = TemplateMaskCache()
         self._get_template_and_mask_input(Backend())  # cache the template and mask
